@@ -204,6 +204,38 @@ def beyond_cases(fc):
     return out, cut
 
 
+# ------------------------------------------------------------------------------------------------ concurrent callers
+def mt_stream(run, exe, limit):
+    iters = 1500 if run.tier == "quick" else 12000
+    long_drop = (b"noop;" * 150)[: min(700, limit - 40)] + b"only_uid:4242"          # drops for every uid but 4242, at the very end
+    long_pass = (b"nosuch:" + b"k" * 40 + b";") * 12 + b"exclude_uid:4242"
+    sets = [[long_drop, b"noop"], [long_drop, long_pass, b"", b"exclude_uid:4242;noop"], [b"noop;only_root;only_uid:4242", b"only_uid:1000,0;noop;noop", b"x", long_drop]]
+    cases = ["mt\t%d\t%d\t0\t%d\t%s" % (r, e, iters, hexlist(cs)) for (r, e) in ((0, 0), (1000, 7)) for cs in sets]
+    d = os.path.join(run.scratch, "mt")
+    os.makedirs(d, exist_ok=True)
+    cp = os.path.join(d, "cases.txt")
+    open(cp, "w").write("".join(c + "\n" for c in cases))
+    out = run.run_impl(exe, cp, os.path.join(d, "impl.out"), env=FAST_ASAN)
+    ncalls = 0
+    for c, o in zip(cases, out):
+        f = c.split("\t")
+        chains = [unhex(x) or b"" for x in f[5].split(",")]
+        if not o.startswith("ok\t"):
+            run.violation("fault:%s" % o.split("\t")[0], "sanitizer", "implementation faulted (%s) with %d threads evaluating chains concurrently under real uid %s" % (o, len(chains), f[1]),
+                          {"stream": "mt", "failing_input": c, "impl_output": o, "cases": [c]})
+            continue
+        res = o.split("\t")[1].split(",")
+        ncalls += iters * len(res)
+        bad = [(chains[i], x) for i, x in enumerate(res) if x[1:] != "0"]
+        if bad:
+            ch, x = bad[0]
+            run.violation("mt:decision-changes-under-concurrency", "spec_violation",
+                          "chain %r decides %s when evaluated alone under real uid %s, but %s of %d evaluations decided otherwise while %d other thread(s) evaluated other chains"
+                          % (ch[:120], "pass" if x[0] == "P" else "drop", f[1], x[1:], iters, len(chains) - 1),
+                          {"stream": "mt", "failing_input": c, "impl_output": o, "cases": [c]})
+    return {"cases": len(cases), "threads": sorted(set(len(c.split("\t")[5].split(",")) for c in cases)), "evaluations": ncalls}
+
+
 # ------------------------------------------------------------------------------------------------ end to end
 def e2e(run, exe, fc, alpha, tier, rng, pty_ok=True):
     lib = build_prod(run)
@@ -320,6 +352,13 @@ def check(run):
     gen = [(st, c) for st in states for c in small]
     nrand = 3000 if run.tier == "quick" else 25000
     gen += [(rng.choice(states), random_chain(rng, alpha, limit, wild=True)) for _ in range(nrand)]
+    # empty elements in every position around a dropping / a passing element, with and without ':'
+    holes = []
+    for x in (b"only_uid:1001", b"only_root", b"exclude_uid:1000", b"only_uid", b"noop", b"nosuch"):
+        for y in (b"only_uid:1000", b"noop:z", b"exclude_uid", b"only_root:q"):
+            holes += [b";" + x, x + b";", b";;" + x, x + b";;", b";" + x + b";", x + b";;" + y, y + b";;" + x, b";" + y + b";;;" + x + b";", b";;" + y + b";" + x + b";;",
+                      y + b";" + b";" * 7 + x]
+    gen += [(st, c) for st in ((1000, 7, 0), (0, 0, 0), (65534, 65534, 0)) for c in holes]
     bnd = boundary_chains(limit, 1000, 1001)
     gen += [(st, c) for st in ((1000, 7, 0), (0, 1000, 1 if pty_ok else 0)) for c in bnd]
     # a smoke stage first: when the implementation faults on a large share of it the full stream is pointless (and slow)
@@ -352,6 +391,8 @@ def check(run):
     bc, _, _ = ([], None, None) if not bpairs else chain_cases(run, exe, bpairs, "beyond", view=lambda c: b";".join(e for e in c[:max(cut, 0)].split(b";") if e.find(b":") < fc["name_max"]))
     res2 = corr_stream(run, AREA, exe, bc, stream="beyond", impl_env=FAST_ASAN) if bc else {"mismatch": [], "spec_bad": [], "faults": [], "model": [], "impl": []}
     nv2, mism2 = classify(run, res2, bc, "beyond", in_domain=False)
+    # ---- concurrent callers (impl only): a chain's decision while other threads evaluate other chains = its decision alone
+    mt = mt_stream(run, exe, limit) if not crashed else {"cases": 0}
     # ---- end to end
     ee = e2e(run, exe, fc, alpha, run.tier, rng, pty_ok) if not crashed else {"calls": 0, "processes": 0, "skipped": True}
     nv_total = len(run.violations)
@@ -379,7 +420,7 @@ def check(run):
                 % (2 if run.tier == "quick" else 3, len(alpha), [a.decode("latin1") for a in alpha], len(states), nrand, fc["ini_max_line"], len(bc), ee["calls"], ee["processes"]),
         "samples": [describe(c) for c in allcases[:: max(1, len(allcases) // 5)]][:5],
         "distribution": {"states": states, "corpus_cases": len(corp), "exhaustive_chains": len(small), "random_chains": nrand, "beyond_domain": len(bc),
-                         "pass": verdicts.count("P"), "drop": verdicts.count("D"), "single_verdicts_measured": len(singles),
+                         "pass": verdicts.count("P"), "drop": verdicts.count("D"), "single_verdicts_measured": len(singles), "concurrent": mt,
                          "mismatches": len(mism) + len(mism2), "spec_failures": len(res["spec_bad"]), "impl_faults_in_domain": len(res["faults"]),
                          "model_fault_matched_by_sanitizer": sum(1 for i, c in enumerate(bc) if res2["model"][i].startswith("fault:") and (res2["impl"][i].startswith("san:") or res2["impl"][i].startswith("crash:"))),
                          "e2e": ee},
@@ -420,6 +461,18 @@ def replay(run, path):
         run.cleanup()
         return 1
     nv = 0
+    mtc = [c for c in cases if c.startswith("mt\t")]
+    cases = [c for c in cases if not c.startswith("mt\t")]
+    if mtc:
+        p = os.path.join(run.scratch, "replay-mt.txt")
+        open(p, "w").write("".join(c + "\n" for c in mtc))
+        for attempt in range(3):          # a race: a few attempts
+            outs = run.run_impl(exe, p, p + ".out", env=FAST_ASAN)
+            for c, o in zip(mtc, outs):
+                print("case:", "\t".join(c.split("\t")[:5]), [(unhex(x) or b"")[:60] for x in c.split("\t")[5].split(",")], "\n impl: ", o)
+            if any((not o.startswith("ok\t")) or any(x[1:] != "0" for x in o.split("\t")[1].split(",")) for o in outs):
+                nv += 1
+                break
     sing = [c for c in cases if c.startswith("single\t")]
     rest = [c for c in cases if not c.startswith("single\t")]
     if sing:
